@@ -89,9 +89,9 @@ for y in range(1873, 2127, 11):
 zones = {}
 until_cases = []
 for y in (2003, 2004, 2006, 2010, 2011):
-    for mname, m in (('Jan', 1), ('Dec', 12), ('Mar', 3)):
+    for mname, m in (('Jan', 1), ('Dec', 12), ('Mar', 3), ('Apr', 4), ('Nov', 11)):
         for dname_i, dname in enumerate(DAYS, 1):
-            for expr, dom in [('%s<=%d' % (dname, k), -k) for k in (1, 2, 3, 6, 7)] + [('%s>=%d' % (dname, k), k) for k in (25, 26, 29, 31)] + [('last' + dname, 0)]:
+            for expr, dom in [('%s<=%d' % (dname, k), -k) for k in (1, 2, 3, 6, 7)] + [('%s>=%d' % (dname, k), k) for k in (25, 26, 29, 31 if m in (1, 3, 12) else 30)] + [('last' + dname, 0)]:
                 zn = 'U/%d_%s_%s' % (y, mname, expr.replace('<=', 'le').replace('>=', 'ge'))
                 zones[zn] = [{'offsetString': '1:00', 'rules': '-', 'format': 'TST', 'untilYear': y, 'untilYearOnly': False, 'untilMonth': m,
                               'untilDayString': expr, 'untilTime': '2:00', 'untilTimeSuffix': 'w', 'rawLine': ''},
@@ -104,7 +104,7 @@ t2.all_notable_zones = {}
 t2._print_removed_map = lambda *a, **k: None
 try:
     kept_z = t2._create_zones_with_until_day(zones)
-    until = [[zn, y, m, dow, dom, zn in kept_z, (kept_z[zn][0].get('untilDay') if zn in kept_z else None)] for zn, y, m, dow, dom in until_cases]
+    until = [[zn, y, m, dow, dom, zn in kept_z, (kept_z[zn][0].get('untilDay') if zn in kept_z else None), (kept_z[zn][0].get('untilMonth') if zn in kept_z else None)] for zn, y, m, dow, dom in until_cases]
 except Exception as e:
     until = [['exception', str(e)]]
 print(json.dumps({'contract': contract, 'until': until, 'n': n, 'bad': bad, 'nparse': np, 'parse_bad': parse_bad[:20], 'admitted': admitted, 'admitted_multi': admitted_multi, 'nexpr': len(rej)}))
